@@ -1,7 +1,7 @@
 (* Properties/C10.v -- Splitting logical batches with BatchMemoryManager changes nothing but memory. *)
 From Coq Require Import ZArith List Bool.
 From OV Require Import Base.Num Base.NumZ Base.Py Model.BmmState Gen.Bmm Proofs.BmmP
-  Model.OptimState Gen.Optim Gen.Ghost Proofs.OptimSM Proofs.BmmRefine Proofs.GhostBackward.
+  Model.OptimState Gen.Optim Gen.Ghost Proofs.OptimSM Proofs.BmmRefine Proofs.GhostBackward Proofs.BmmReset.
 Import ListNotations.
 
 (* numpy.array_split(l, k), k >= 1: the chunks concatenate to l, there are k, sizes differ by at most one *)
@@ -62,5 +62,20 @@ Proof. reflexivity. Qed.
 Print Assumptions C10_array_split_partition.
 Print Assumptions C10_physical_batches_bounded.
 Print Assumptions C10_sampler_emits.
+(* an iteration of the manager's loader that was left early (a peek at one batch, break after max_steps with workers that fetched ahead,
+   an exception): the clean-up generated from _drop_unfinished_logical_batch -- pinned as the first statement of the splitting sampler's
+   __iter__ and as the body of __exit__ -- empties the signal queue and forgets a half-finished logical batch, touches neither the
+   accountant nor the noise stream nor any hyper-parameter, is the identity after an iteration that ran to its end, and makes everything
+   that follows independent of the signals that were left behind *)
+Theorem C10_abandoned_iteration_leaves_nothing {T} {N : Num T} (s : ost T) :
+  v_drop s = SOk (ref_drop s) tt /\
+  (let s' := ref_drop s in
+   o_skipq s' = [] /\ o_last_skipped s' = false /\ (o_last_skipped s = true -> o_summed s' = None /\ o_gs s' = GNone) /\
+   o_events s' = o_events s /\ o_hist s' = o_hist s /\ o_nm s' = o_nm s /\ o_mgn s' = o_mgn s /\ o_noise_pos s' = o_noise_pos s) /\
+  (o_skipq s = [] -> o_last_skipped s = false -> ref_drop s = s) /\
+  (forall q q', ref_drop (upd_skipq s q) = ref_drop (upd_skipq s q')).
+Proof. exact (conj (drop_is_ref s) (conj (drop_post s) (conj (drop_clean_noop s) (stale_signals_irrelevant s)))). Qed.
+
 Print Assumptions C10_bmm_refines_unsplit.
 Print Assumptions C10_ghost_backward_is_generated.
+Print Assumptions C10_abandoned_iteration_leaves_nothing.
